@@ -89,9 +89,28 @@ def rb_scripts(result, vals):
             if o in ('ob', 'of') and size == 0:
                 return None
             lines.append(o)
-        # a short generic tail that touches every element again
-        if size > 0 or op:
-            lines += ['eq']
+        # a short generic tail that uses the buffer again (a corrupted head/size shows on the next operations)
+        cap2, size2 = cap, size
+        if op:
+            o = op.format(n=n, c2=c2, p2=p2, s2=s2)
+            if o.startswith('pb') or o.startswith('pf'):
+                size2 = min(size + 1, cap)
+            elif o in ('ob', 'of'):
+                size2 = size - 1
+            elif o.startswith('rs'):
+                cap2, size2 = n, min(size, n)
+            elif o.startswith('ca') or o.startswith('ma'):
+                cap2, size2 = c2, s2
+        for v in (71, 72):
+            if ow or size2 < cap2:
+                lines.append('pb %d' % v)
+                size2 = min(size2 + 1, cap2)
+        if size2 > 0:
+            lines.append('of')
+            size2 -= 1
+        if size2 > 0:
+            lines.append('ob')
+        lines += ['eq']
         return '\n'.join(lines) + '\n'
     if 1 <= cap <= 64 and 0 <= pos < cap and size <= cap and 1 <= n <= 64:
         s = mk(cap, pos, size, n)
